@@ -109,7 +109,10 @@ def fingerprintRoots (want : String) (el : Node) : Option (List String) :=
   | [] => none
   | x :: _ =>
     match x.children with
-    | [.text _ s] => if s ≠ badCert ∧ s = want then some [s] else none
+    | [.text _ s] =>
+      -- `parseCert` removes white space before decoding
+      let k := String.ofList (s.toList.filter (fun c => !c.isWhitespace))
+      if k ≠ badCert ∧ k = want then some [k] else none
     | _ => none
 
 def trustRoots (t : Trust) (el : Node) : Option (List String) :=
@@ -157,19 +160,30 @@ def shapeOK (sig : Node) : Bool :=
 
 def refMatches (idAttr : String) (r : RefView) : Bool := r.uri = "" || (r.uri.drop 1).toString = idAttr
 
+/-- `NSFindOneChildCtx` / `NSFindChildrenIterateCtx` halting at the first match: child elements are
+    visited in order and *each* must have a resolvable prefix until the match is found -/
+def nsFirstChild (ctx : NSCtx) (ns tag : String) : List Node → Option (Option Node)
+  | [] => some none
+  | c :: rest =>
+    if c.isElem then
+      match resolveElem ctx c with
+      | none => none
+      | some (_, cns) => if cns = ns ∧ c.tag = tag then some (some c) else nsFirstChild ctx ns tag rest
+    else nsFirstChild ctx ns tag rest
+
 /-- the checks `findSignature` makes on one ds:Signature element before it looks at its references:
     shape, a ds:SignedInfo child with a ds:CanonicalizationMethod naming a known algorithm, and the
     element unmarshals.  `ctx` is the context inside the Signature element. -/
 def sigUsable (inp : Input) (ctx : NSCtx) (sig : Node) : Option SigView :=
   if !shapeOK sig then none
   else
-    match findChildren ctx dsigNS "SignedInfo" sig.children with
-    | some (si :: _) =>
+    match nsFirstChild ctx dsigNS "SignedInfo" sig.children with
+    | some (some si) =>
       (match subContext ctx si.attrs with
        | none => none
        | some cin =>
-         match findChildren cin dsigNS "CanonicalizationMethod" si.children with
-         | some (cm :: _) =>
+         match nsFirstChild cin dsigNS "CanonicalizationMethod" si.children with
+         | some (some cm) =>
            if knownC14n.contains ((cm.selectAttr "Algorithm").getD "") then inp.sview sig.nid else none
          | _ => none)
     | _ => none
@@ -231,8 +245,8 @@ def signedInfoCanon (ctxParent : NSCtx) (sig : Node) : Option String :=
   match subContext ctxParent sig.attrs with
   | none => none
   | some c =>
-    match findChildren c dsigNS "SignedInfo" sig.children with
-    | some (si :: _) => canonNode c si
+    match nsFirstChild c dsigNS "SignedInfo" sig.children with
+    | some (some si) => canonNode c si
     | _ => none
 
 /-- everything goxmldsig establishes before it says "valid", as data -/
